@@ -60,28 +60,30 @@ ADV_FULL = [30, 720, 1430, 1450, D5 - 10, D5 + 80]
 
 
 def configs(tier):
-    """(name, cfg text, workers) per TLC run."""
+    """(name, cfg text) per TLC run.  Sizes are fitted to measured case counts (see per-config comments)."""
+    common_wide = dict(ages=AGES_FULL, future_ages=[120], ne_ages=[0, 43200], ne_all=False,
+                       tt_past=TT_PAST_FULL, tt_future=TT_FUTURE_FULL, tt_corrupt=6)
     if tier == "quick":
         return [
-            # exhaustive: one index entry + its output, every age pair, every trim.txt class, <= 1 use, <= 1 advance, 2 trims
-            ("core", cfg(ids=[1], ages=[0, 70, D5 - 10, D5 + 50, D5 + 70, 43200], future_ages=[], ne_ages=[43200], ne_all=True,
-                         tt_past=[0, 1430, 1450, 43200], tt_future=[50, 70, 43200], tt_corrupt=2, adv=[1430, 1450],
-                         max_look=1, max_adv=1, max_trim=2)),
-            # sampled: three ids (two sharing an output), random populations incl. non-entry subsets, <= 2 uses
-            ("wide", cfg(ids=[1, 2, 3], ages=AGES_FULL, future_ages=[120], ne_ages=[0, 43200], ne_all=False,
-                         tt_past=TT_PAST_FULL, tt_future=TT_FUTURE_FULL, tt_corrupt=6, adv=[720, 1450, D5 - 10],
-                         max_look=2, max_adv=1, max_trim=1, sample=40, tt_sample=2)),
+            # exhaustive: one index entry + its output, every pair of ages, a due trim, <= 1 use, <= 1 advance of 5d-10m
+            ("ages", cfg(ids=[1], ages=[0, 50, 110, D5 + 50, D5 + 70], future_ages=[], ne_ages=[43200], ne_all=True,
+                         tt_past=[1450], tt_future=[], tt_corrupt=0, adv=[D5 - 10], max_look=1, max_adv=1, max_trim=1)),
+            # exhaustive: every trim.txt class x coarse populations, time passing, two trims in a row
+            ("due", cfg(ids=[1], ages=[0, D5 + 70, 43200], future_ages=[], ne_ages=[43200], ne_all=True,
+                        tt_past=[0, 1430, 1450, 43200], tt_future=[50, 70, 43200], tt_corrupt=2, adv=[1430, 1450],
+                        max_look=0, max_adv=1, max_trim=2, with_store=False)),
+            # sampled: three ids (two sharing an output), random populations incl. non-entry subsets and future mtimes
+            ("wide", cfg(ids=[1, 2, 3], adv=[1450], max_look=1, max_adv=1, max_trim=1, sample=15, tt_sample=2, **common_wide)),
         ]
     return [
-        ("core", cfg(ids=[1], ages=AGES_FULL, future_ages=[120], ne_ages=[43200], ne_all=True,
-                     tt_past=TT_PAST_FULL, tt_future=TT_FUTURE_FULL, tt_corrupt=6, adv=[30, 1430, 1450, D5 - 10],
-                     max_look=1, max_adv=1, max_trim=2)),
-        ("wide", cfg(ids=[1, 2, 3], ages=AGES_FULL, future_ages=[120], ne_ages=[0, 43200], ne_all=False,
-                     tt_past=TT_PAST_FULL, tt_future=TT_FUTURE_FULL, tt_corrupt=6, adv=ADV_FULL,
-                     max_look=2, max_adv=1, max_trim=2, sample=150, tt_sample=2)),
-        ("wide4", cfg(ids=[1, 2, 3, 4], ages=AGES_FULL, future_ages=[120], ne_ages=[0, 43200], ne_all=False,
-                      tt_past=TT_PAST_FULL, tt_future=TT_FUTURE_FULL, tt_corrupt=6, adv=[1450, D5 - 10],
-                      max_look=3, max_adv=1, max_trim=1, sample=60, tt_sample=1)),
+        ("ages", cfg(ids=[1], ages=AGES_FULL, future_ages=[120], ne_ages=[43200], ne_all=True,
+                     tt_past=[1450], tt_future=[], tt_corrupt=0, adv=[30, 1450, D5 - 10], max_look=1, max_adv=1, max_trim=1)),
+        ("due", cfg(ids=[1], ages=[0, D5 + 70, 43200], future_ages=[], ne_ages=[43200], ne_all=True,
+                    tt_past=TT_PAST_FULL, tt_future=TT_FUTURE_FULL, tt_corrupt=6, adv=[30, 1430, 1450, D5 - 10],
+                    max_look=0, max_adv=1, max_trim=2, with_store=False)),
+        ("wide", cfg(ids=[1, 2, 3], adv=[720, 1450, D5 - 10], max_look=1, max_adv=1, max_trim=1, sample=100, tt_sample=2, **common_wide)),
+        ("wide2", cfg(ids=[1, 2, 3], adv=[1450], max_look=1, max_adv=1, max_trim=2, sample=30, tt_sample=1, **common_wide)),
+        ("wide4", cfg(ids=[1, 2, 3, 4], adv=ADV_FULL, max_look=2, max_adv=0, max_trim=1, sample=40, tt_sample=1, **common_wide)),
     ]
 
 
@@ -133,7 +135,7 @@ def check(ctx):
         for k, v in c.items():
             counters[k] = counters.get(k, 0) + v
         per_run.append(dict(config=name, tlc_distinct_states=res.distinct, trim_transitions_emitted=res.emits,
-                            replayed=r["evaluations"], violations=len(r["violations"])))
+                            replayed=r["evaluations"], violations=c.get("violations_total", 0)))
         log("C13 %s: %d states, %d trim transitions emitted, %d replayed, %d violations, drift %d"
             % (name, res.distinct, res.emits, r["evaluations"], c.get("violations_total", 0), c.get("drift_total", 0)))
         os.remove(cases)
@@ -143,12 +145,15 @@ def check(ctx):
         evaluations=evals, distinct_nontrivial=nontriv,
         rule=("every Trim transition of the bounded state graphs of MC_CacheTrim is one case (initial population: every entry file "
               "absent or aged from the boundary set, non-entry files, trim.txt class; history of Get/GetFile/GetBytes/OutputFile/Put/"
-              "Advance steps; final Trim). 'core' is the exhaustive product for one entry, 'wide*' take TLC-seeded random populations "
+              "Advance steps; final Trim). 'ages' (every pair of ages of one index entry and its output) and 'due' (every trim.txt class, two trims in a row) are exhaustive products, 'wide*' take TLC-seeded random populations "
               "of 3-4 ids with shared outputs and arbitrary non-entry subsets. Each case is replayed into the real package and the "
               "directory after the Trim is judged by the classes the specification derives from the statement. Duplicate lines are "
               "dropped by hash; non-trivial = at least one entry file exists before the judged Trim and, when the trim must be "
               "skipped, at least one of them is stale (so that skipping is observable)"),
-        samples=samples[:10], exhaustive=True, traces_validated_against_impl=0,
+        samples=samples[:10], exhaustive=True,
+        exhaustive_scope="configurations 'ages' and 'due' are complete products (every population over their age sets x every trim.txt class x "
+                         "every history within the bounds); 'wide*' are TLC-seeded samples of a larger population space, complete in the histories",
+        traces_validated_against_impl=0,
         runs=per_run, counters=counters, drift=drift[:10], drift_total=counters.get("drift_total", 0),
         l2_conformant=(counters.get("drift_total", 0) == 0))
     for v in violations:
